@@ -88,6 +88,13 @@ func normDiff(op Op, r Res) string {
 	return "ok"
 }
 
+func exactErr(r Res) string {
+	if ec := r.errClass(); ec != "" {
+		return "err:" + ec
+	}
+	return "ok"
+}
+
 func wantForDiff(op Op, want Res) Res {
 	if op.Kind == "GetExpiration" && want.Err == "" {
 		if want.N == 0 {
@@ -145,6 +152,11 @@ func runDiff(ops []Op) diffOut {
 			writer, stored = e.writer, e.st
 		}
 		nm, nr, nw := normDiff(op, gm), normDiff(op, gr), normDiff(op, wantForDiff(op, want))
+		if op.Kind == "SetExpiration" && want.Err == "" {
+			// the key exists (both backends agree so far): re-timing it must succeed on both; only the
+			// answer on a MISSING key is backend-specific and left uncompared by normDiff
+			nm, nr = exactErr(gm), exactErr(gr)
+		}
 		if op.Kind == "SetExpiration" && strings.HasPrefix(class, "expired-") && gm.Err == "" {
 			// the answers are not compared across backends (see normDiff), but on the memory side an
 			// accepted SetExpiration brings the expired value back: every later read would differ
@@ -357,9 +369,12 @@ func genDiffOp(t *rapid.T, shadow map[string]kstate, touched map[string]bool) Op
 		op.Val = genDiffStr(t, "new")
 		op.TTL = rapid.SampledFrom([]string{ttlZero, ttlZero, ttlLong}).Draw(t, "ttl") // sub-second CAS lifetimes: no caller, Redis truncates
 	case "SetExpiration":
-		op.TTL = rapid.SampledFrom(ttlPool).Draw(t, "ttl")
+		op.TTL = rapid.SampledFrom([]string{ttlZero, ttlZero, ttlShort, ttlLong}).Draw(t, "ttl")
 	case "SetList":
 		n := rapid.IntRange(0, 4).Draw(t, "n")
+		if l, ok := cur.V.([]any); ok && len(l) > 0 && rapid.IntRange(0, 3).Draw(t, "replaceByEmpty") == 0 {
+			n = 0
+		}
 		for i := 0; i < n; i++ {
 			op.Vals = append(op.Vals, *genMember(t, "elem"))
 		}
@@ -491,6 +506,12 @@ func TestDifferentialRedis(t *testing.T) {
 			if isEmptyContainer(st2) {
 				// Redis has no empty list/hash: the key vanishes with its last member, memory keeps an
 				// empty container (and its lifetime). No repository depends on either: normalise by deleting.
+				// (read it first: "replaced by nothing" must not leave the previous members behind)
+				if _, isList := st2.V.([]any); isList {
+					c.Ops = append(c.Ops, Op{Kind: "GetList", Key: op.Key})
+				} else {
+					c.Ops = append(c.Ops, Op{Kind: "GetAllHash", Key: op.Key})
+				}
 				c.Ops = append(c.Ops, Op{Kind: "Delete", Key: op.Key})
 				delete(shadow, op.Key)
 				delete(shortKeys, op.Key)
@@ -515,6 +536,11 @@ func TestDifferentialRedis(t *testing.T) {
 			apply(op)
 			// look at a container right after changing it
 			switch op.Kind {
+			case "SetExpiration":
+				// removing a deadline that is not there (any more) is still a success on an existing key
+				if op.TTL == ttlZero && rapid.Bool().Draw(t, "again") {
+					apply(op)
+				}
 			case "RemoveFromList", "AppendToList", "SetList":
 				if rapid.IntRange(0, 2).Draw(t, "readBack") > 0 {
 					apply(Op{Kind: "GetList", Key: op.Key})
